@@ -18,7 +18,7 @@ TECHNIQUE = "exhaustive enumeration of facade method x command set x every subse
 RULE = ("38 facade methods x every command set whose table offers the command x every subset of the optional keyword arguments (from "
         "inspect.signature of the command class; each supplied argument takes 2 non-default values) x caller buffers of kind bytearray / bytes / memoryview window x 2-3 well-formed device responses chosen to "
         "match the request; plus every method x set x 10 exception types raised by the device *after* it took the command (exactly one submission, the same exception object reaches the caller) (VPD page by page code, mode page by page code, PR IN data by service action, disc information by data type, READ CD "
-        "sectors by selection bits); READ/WRITE(10,12,16) through the real SCSIDevice / ISCSIDevice and the stand-in bindings with transfers of {1,2,7Fh,80h,7FFFh,8000h,8001h,40000,FFFFh} blocks of 512 bytes (one submission, whole buffers, iSCSI expected transfer length = buffer length). Non-trivial = at least one optional argument supplied or a non-SPC command set; distinct = distinct (method, "
+        "sectors by selection bits); READ/WRITE(10,12,16) through the real SCSIDevice / ISCSIDevice and the stand-in bindings with transfers of {1,2,7Fh,80h,7FFFh,8000h,8001h,40000,FFFFh} blocks of 512 bytes (one submission, whole buffers, iSCSI expected transfer length = buffer length). after every successful call: decode the returned command again, submit it again, repeat the call on the same facade (same CDB, one submission each, equal result, fresh buffers). Non-trivial = at least one optional argument supplied or a non-SPC command set; distinct = distinct (method, "
         "set, argument dict, response).")
 ASSUMPTIONS = [
     "the recording device is a plain object with opcodes/execute/close: it notes call count, a copy of the CDB, id() of both buffers and whether cmd.result was already populated, then fills data-in in place",
@@ -384,6 +384,47 @@ def run_case(case, obs=None):
         out.append(("%s/raises" % method, "%s: raised %s: %s" % (where, type(err).__name__, err)))
     elif cmd.result not in ({}, None):
         out.append(("%s/unexpected_result" % method, "%s: result %r for a command without decoder" % (where, cmd.result)))
+    if err is None and not out:
+        out += second_use(s, dev, method, kw, cmd, c, where, decoder_kwargs(method, allkw) if dec is not None else None)
+    return out
+
+
+def second_use(s, dev, method, kw, cmd, first, where, dk):
+    """what the caller may do next with what it got back: decode again, submit the same command again, call the method again with
+    the same arguments on the same facade - each behaves like the first time"""
+    out = []
+    r1 = copy.deepcopy(cmd.result)
+    try:
+        if dk is not None:
+            cmd.unmarshall(**dk)
+    except Exception as e:   # noqa: BLE001
+        out.append(("%s/second_unmarshall" % method, "%s: decoding the returned command a second time raised %s: %s" % (where, type(e).__name__, e)))
+    else:
+        if not same(cmd.result, r1):
+            out.append(("%s/second_unmarshall" % method, "%s: decoding the returned command a second time gives %s, the first time %s" % (where, _s(cmd.result), _s(r1))))
+    n0 = len(dev.calls)
+    try:
+        s.execute(cmd)
+    except Exception as e:   # noqa: BLE001
+        out.append(("%s/resubmit" % method, "%s: submitting the returned command again raised %s: %s" % (where, type(e).__name__, e)))
+    new = dev.calls[n0:]
+    if len(new) != 1 or new[0]["cdb"] != first["cdb"] or new[0]["datain"] is not first["datain"] or new[0]["dataout"] is not first["dataout"]:
+        out.append(("%s/resubmit" % method, "%s: submitting the returned command again reached the device %d times with CDB %s (first: %s)"
+                    % (where, len(new), new[0]["cdb"].hex() if new else None, first["cdb"].hex())))
+    n0 = len(dev.calls)
+    try:
+        cmd2 = F.call(s, method, **kw)
+    except Exception as e:   # noqa: BLE001
+        out.append(("%s/second_call" % method, "%s: the same call a second time raised %s: %s" % (where, type(e).__name__, e)))
+        return out
+    new = dev.calls[n0:]
+    if len(new) != 1 or new[0]["cdb"] != first["cdb"]:
+        out.append(("%s/second_call" % method, "%s: the same call a second time reached the device %d times with CDB %s (first: %s)"
+                    % (where, len(new), new[0]["cdb"].hex() if new else None, first["cdb"].hex())))
+    elif cmd2 is cmd or (cmd2.datain is cmd.datain and len(cmd.datain) and "data" not in kw):
+        out.append(("%s/second_call" % method, "%s: the second call returned the first call's command / data-in buffer" % where))
+    elif not same(cmd2.result, r1):
+        out.append(("%s/second_call" % method, "%s: the same call a second time decodes to %s, the first time %s" % (where, _s(cmd2.result), _s(r1))))
     return out
 
 
